@@ -252,3 +252,6 @@ func DeepEqual(a, b interface{}) bool { return reflect.DeepEqual(a, b) }
 
 // ShortReads has no native counterpart (the real reader decides itself).
 func ShortReads(on bool) {}
+
+// SSTCuts has no native counterpart (real tables reach the size threshold only with megabytes of data).
+func SSTCuts(on bool) {}
